@@ -202,8 +202,9 @@ def checkServices (c : Ctx) (old new : List Service) : List Finding :=
 
 /-! ### Audit -/
 
-def audit (old new : Prog) : List Finding :=
-  let c := Ctx.of old new
+/-- The checkers in the order of `Auditor.Audit`, for a given comparison context. Every position
+is compared on its own: `checkType` keeps no memory of the pairs it has seen. -/
+def auditWith (c : Ctx) (old new : Prog) : List Finding :=
   checkScopes c old.scopes new.scopes
     ++ checkNamespaces old.namespaces new.namespaces
     ++ checkConstants c old.consts new.consts
@@ -212,6 +213,8 @@ def audit (old new : Prog) : List Finding :=
     ++ checkStructLike c (ofKind .exception old.structs) (ofKind .exception new.structs)
     ++ checkStructLike c (ofKind .union old.structs) (ofKind .union new.structs)
     ++ checkServices c old.services new.services
+
+def audit (old new : Prog) : List Finding := auditWith (Ctx.of old new) old new
 
 /-- `Audit` returns an error iff an error was logged. -/
 def auditFails (old new : Prog) : Bool := (audit old new).any Finding.isError
